@@ -9,7 +9,7 @@
     a value and has an index) and every rendered left column is at most 65 523 columns wide (observation N:
     core::fmt limits run-time widths to u16; the bound is 65 535 - 12). *)
 From ClapModel Require Import Base.Bytes Base.Machine Parse.Cmd Parse.Build Parse.Errors Parse.Parser.
-From ClapModel Require Import Gen.HelpTables Help.UsageModel Help.HelpModel Help.HelpProofs Help.HelpLevel.
+From ClapModel Require Import Gen.HelpTables Help.UsageModel Help.HelpModel Help.HelpProofs Help.HelpLevel Help.HelpSpecVals.
 From RecordUpdate Require Import RecordSet.
 Import RecordSetNotations.
 Open Scope N_scope.
@@ -120,3 +120,62 @@ Theorem C12_hypotheses_satisfiable :
   /\ NoDup (map ha_id (hc_args (h_build_self ex_cmd))) /\ NoDup (map sc_str (hc_subs (h_build_self ex_cmd))).
 Proof. exact ex_cmd_hyps. Qed.
 Print Assumptions C12_hypotheses_satisfiable.
+
+(** ---- round 2: [spec_vals] (env, defaults, aliases, possible values) ---- *)
+
+(** nothing hidden appears anywhere: two commands that differ only in hidden possible values (name, help),
+    in aliases / short aliases that are not visible, in the env entry under [hide_env], the env value under
+    [hide_env_values] or the defaults under [hide_default_value] ([erase_cmd] blanks exactly these) render the
+    same screen, in every mode, at every width, for every display-width function (panic included) *)
+Theorem C12_hidden_content_noninterference : forall dw c c' use_long w,
+  erase_cmd c = erase_cmd c' -> write_help dw c use_long w = write_help dw c' use_long w.
+Proof. exact hidden_content_noninterference. Qed.
+Print Assumptions C12_hidden_content_noninterference.
+
+(** every row of every section is the row of a shown argument, carrying exactly [spec_vals use_long a] as its
+    spec text and the names of the not-hidden values as its long-form list, or a subcommand row without either *)
+Theorem C12_row_spec_vals : forall dw c use_long w s sec r,
+  write_help dw c use_long w = Some s -> In sec (scr_sections s) -> In r (s_rows sec) ->
+  (exists a, In a (hc_args c) /\ should_show_arg use_long a = true /\ r_id r = ha_id a
+             /\ r_spec r = spec_vals use_long a /\ r_long_pvs r = long_list use_long a)
+  \/ (exists sc, In sc (hc_subs c) /\ hc_hide sc = false /\ r_id r = hc_name sc /\ r_spec r = [] /\ r_long_pvs r = []).
+Proof. exact row_spec_vals. Qed.
+Print Assumptions C12_row_spec_vals.
+
+(** every possible value that is not hidden is listed in the row of its argument when the argument is shown
+    and [hide_possible_values] is off *)
+Theorem C12_visible_pv_listed : forall dw c use_long w s a pv,
+  NoDup (map ha_id (hc_args c)) -> write_help dw c use_long w = Some s ->
+  In a (hc_args c) -> should_show_arg use_long a = true -> ha_hide_pv a = false ->
+  In pv (ha_possible_values a) -> pv_hide pv = false ->
+  exists sec r, In sec (scr_sections s) /\ s_title sec = arg_section_title a /\ In r (s_rows sec) /\ r_id r = ha_id a
+    /\ r_spec r = intercalate (if use_long then [10] else [32]) (spec_vals_list use_long a)
+    /\ ((use_long_pv use_long a = true /\ In (pv_name pv) (r_long_pvs r))
+        \/ (use_long_pv use_long a = false
+            /\ In (s_pv_open ++ intercalate [44; 32] (pv_quoted_names a) ++ [93]) (spec_vals_list use_long a)
+            /\ In (quote_if_ws (pv_name pv)) (pv_quoted_names a))).
+Proof. exact visible_pv_listed. Qed.
+Print Assumptions C12_visible_pv_listed.
+
+(** the values a row lists are values that are not hidden (both forms) *)
+Theorem C12_listed_pv_visible : forall use_long a n,
+  (In n (long_list use_long a) \/ In n (pv_quoted_names a)) ->
+  exists pv, In pv (ha_pvs a) /\ pv_hide pv = false /\ (pv_name pv = n \/ quote_if_ws (pv_name pv) = n).
+Proof. exact listed_pv_visible. Qed.
+Print Assumptions C12_listed_pv_visible.
+
+(** non-vacuity: two built commands that differ in hidden content only; every hypothesis above holds *)
+Theorem C12_spec_vals_satisfiable :
+  erase_cmd sv_cmd = erase_cmd sv_cmd' /\ sv_cmd <> sv_cmd'
+  /\ NoDup (map ha_id (hc_args sv_cmd)) /\ cmd_ok len sv_cmd
+  /\ (exists a pv, In a (hc_args sv_cmd) /\ should_show_arg false a = true /\ ha_hide_pv a = false
+                   /\ In pv (ha_possible_values a) /\ pv_hide pv = false).
+Proof. exact sv_hyps5. Qed.
+Print Assumptions C12_spec_vals_satisfiable.
+
+(** observation: a default value that names a hidden possible value is printed ([default: sec]) *)
+Theorem C12_default_names_hidden_pv :
+  exists a pv, In pv (ha_pvs a) /\ pv_hide pv = true
+    /\ spec_vals false a = s_default_open ++ pv_name pv ++ [93; 32] ++ s_pv_open ++ [97; 93].
+Proof. exact default_names_hidden_pv. Qed.
+Print Assumptions C12_default_names_hidden_pv.
